@@ -138,9 +138,9 @@ def lean_axioms(modules, theorems):
     out = r.stdout + r.stderr
     res = {}
     # outputs:  'Foo.bar' depends on axioms: [propext, Quot.sound]   /  'Foo.bar' does not depend on any axioms
-    for m in re.finditer(r"'([^']+)' depends on axioms: \[([^\]]*)\]", out, re.S):
+    for m in re.finditer(r"^'([^\n]+?)' depends on axioms: \[([^\]]*)\]", out, re.S | re.M):
         res[m.group(1)] = [a.strip() for a in m.group(2).replace('\n', ' ').split(',') if a.strip()]
-    for m in re.finditer(r"'([^']+)' does not depend on any axioms", out):
+    for m in re.finditer(r"^'([^\n]+?)' does not depend on any axioms", out, re.M):
         res[m.group(1)] = []
     if r.returncode != 0 or set(res) != set(theorems):
         raise InfraError('axiom audit of %s failed (missing %s):\n%s' % (
@@ -272,7 +272,31 @@ def main(prop, argv=None):
         os.environ.setdefault('VERIF_EVIDENCE_DIR', os.path.join(__import__('tempfile').gettempdir(), 'verif_dev_evidence'))
     seed = int(os.environ.get('VERIF_SEED', '0') or 0)
     pid = prop.ID
+    if a.replay:
+        # a replay runs under the seed and tier recorded in the file, so that a case which is only described there
+        # (a long sequence cut short, "whole run") is regenerated exactly
+        try:
+            rec = json.load(open(a.replay))
+            seed = int(rec.get('seed', seed))
+            tier = rec.get('tier', tier) if rec.get('tier') in ('quick', 'thorough') else tier
+        except Exception as e:  # noqa
+            log('[%s] INFRASTRUCTURE FAILURE: cannot read the replay file %s: %r' % (pid, a.replay, e))
+            sys.exit(2)
     ctx = Ctx(pid, tier, seed)
+    # last line of defence against a hang in in-process work on the implementation (every scenario that starts
+    # processes already runs in its own process group with its own limit): a time-out of the whole check is an
+    # infrastructure outcome (exit 2), never a verdict
+    limit = float(os.environ.get('VERIF_WALL_LIMIT', '2400' if tier == 'quick' else '14400'))
+
+    def _watchdog():
+        time.sleep(limit)
+        log('[%s] TIMEOUT: the check did not finish within %.0f s' % (pid, limit))
+        try:
+            os.killpg(0, 9) if os.getpgid(0) == os.getpid() else None
+        finally:
+            os._exit(2)
+    import threading
+    threading.Thread(target=_watchdog, daemon=True).start()
     sys.path.insert(0, REPO)
     import warnings
     warnings.filterwarnings('ignore')
@@ -301,7 +325,10 @@ def main(prop, argv=None):
                 ctx.extra['leanchecker'] = 'ok'
         if a.replay:
             data = json.load(open(a.replay))
-            prop.replay(ctx, data)
+            if isinstance(data.get('case'), dict):
+                prop.replay(ctx, data)
+            else:
+                prop.check(ctx)         # the record is about the run as a whole: repeat it under the recorded seed and tier
         else:
             prop.check(ctx)
     except InfraError as e:
